@@ -30,6 +30,14 @@ def gen_cases(rng, tier, scale):
             cases += gen_duplicates(rng, maxchain, 8, flask=True)
     for _ in range((90 if tier == 'quick' else 2500) * scale):          # shared Parameter objects, calls in sequence
         cases.append(gen_shared(rng, maxchain))
+    # ignore_input=True: caller input is ignored in EVERY call style, for every kind of Parameter (plain, FlaskPathParameter - a plain
+    # Parameter subclass -, external with / without value), inside and outside a request context
+    for _ in range((40 if tier == 'quick' else 700) * scale):
+        cases += gen_matrix(rng, maxchain, rng.randint(1, 3), 8, ignore_input=True)
+    for _ in range((12 if tier == 'quick' else 250) * scale):
+        cases += gen_matrix(rng, maxchain, rng.randint(1, 3), 6, flask=True, ignore_input=True)
+    for _ in range((20 if tier == 'quick' else 400) * scale):            # a parameter literally named cls / args / kwargs / ...: binding by name all the same
+        cases += gen_convention_names(rng, maxchain, 6 if tier == 'quick' else 12)
     for _ in range((400 if tier == 'quick' else 6000) * scale):
         c = gen_random_case(rng, maxchain)
         if rng.random() < 0.2:
@@ -45,6 +53,8 @@ def run(tier, seed, replay=None):
                            'splits x all keyword permutations (all for <=3 parameters, sampled for 4) x 3 return_as modes, plus all '
                            '(<=6) declaration orders; sequences of 3-6 calls of 2-3 functions decorated with the same Parameter objects (different signature '
                            'defaults / modes / declaration orders, external values changing between calls), every call judged on its own; '
+                           'ignore_input=True configurations (plain Parameter, FlaskPathParameter, harness / environment / Flask sources with and without value, mostly optional with default) x all call styles x 3 modes, inside and outside a request context: the body must see the same source / default binding whatever the caller passes and however; '
+                           'functions / methods with a parameter literally named cls / args / kwargs / ... x all call styles x 3 modes; '
                            'declarations with SEVERAL Parameters for one name (plain and external, sources with / without value, the name passed / omitted) '
                            'x all call styles x 3 modes, judged against every resolution of the duplicate (a passed value must come out of the chain of '
                            'one of the Parameters of its name, never from a source); Flask JSON/form/query/header parameters inside a test request '
